@@ -244,5 +244,47 @@ def rule_u7(repo):
                           'a constant in the skipped position keeps (or loses) its annotation while the rest of the term is re-inferred')
 
 
+def rule_u8(repo):
+    """Type inference ends by expanding the representatives of the internal type variables into each other.
+    A representative can mention a variable whose own representative still has to be expanded, in any order of
+    creation: the expansion is a fixpoint - the statement that substitutes the table into one of its own entries
+    sits in a loop that repeats as long as an entry changed.  A single sweep leaves an internal variable (?'_t4) in
+    the term that is returned: not the term that was printed, and not well typed."""
+    res = RuleResult('C08.U8', 'the representatives of internal type variables are expanded to a fixpoint', floor=1)
+    f = repo.func('syntax/infertype.py', 'type_infer')
+    stores = [a for a in ast.walk(f.node) if isinstance(a, ast.Assign) and isinstance(a.targets[0], ast.Subscript) and isinstance(a.targets[0].value, ast.Name) and
+              isinstance(a.value, ast.Call) and call_attr(a.value) == 'subst' and a.value.args and is_name(a.value.args[0], a.targets[0].value.id)]
+    need(stores, 'type_infer: expansion of the representatives (`tyinst[..] = T.subst(tyinst)`) not found')
+    parent = {}
+    for n in ast.walk(f.node):
+        for c in ast.iter_child_nodes(n):
+            parent[id(c)] = n
+    for a in stores:
+        whiles = []
+        cur = a
+        while id(cur) in parent:
+            cur = parent[id(cur)]
+            if isinstance(cur, ast.While):
+                whiles.append(cur)
+        ok = False
+        for w in whiles:
+            flags = {x.id for x in ast.walk(w.test) if isinstance(x, ast.Name)}
+            # the flag is raised next to the store, and lowered at the start of each round
+            blk = parent[id(a)]
+            body = blk.body if a in getattr(blk, 'body', []) else getattr(blk, 'orelse', [])
+            raised = any(isinstance(st, ast.Assign) and isinstance(st.targets[0], ast.Name) and st.targets[0].id in flags and
+                         isinstance(st.value, ast.Constant) and st.value.value is True for st in body)
+            lowered = any(isinstance(st, ast.Assign) and isinstance(st.targets[0], ast.Name) and st.targets[0].id in flags and
+                          isinstance(st.value, ast.Constant) and st.value.value is False for st in w.body)
+            if raised and lowered:
+                ok = True
+        res.add('syntax/infertype.py :: type_infer :: fixpoint(%s)' % src(a, 40), ok,
+                'repeated until no entry changes' if ok else
+                'line %d expands each entry once: an entry that mentions a variable whose own entry is expanded later keeps it, and the parsed '
+                'term contains an internal type variable (!u. u = [[x]] --> u = u came back with = at ?\'_t4 list list)' % a.lineno,
+                'syntax/infertype.py:%d' % a.lineno)
+    return res
+
+
 def rules(repo):
-    return [rule_u1(repo), rule_u2(repo), rule_u3(repo), rule_u4(repo), rule_u5(repo), rule_u6(repo), rule_u7(repo)]
+    return [rule_u1(repo), rule_u2(repo), rule_u3(repo), rule_u4(repo), rule_u5(repo), rule_u6(repo), rule_u7(repo), rule_u8(repo)]
